@@ -38,6 +38,9 @@ type r2State struct {
 	cmpCanceled map[*types.Func]string
 	// the implementations of broadcast()/getWaitCh() inside package broadcast
 	bm, gm *types.Func
+	// R17: the forms in which each function reports a cancelled wait
+	cancelForms map[string]map[string]token.Pos
+	cancelOrder []string
 }
 
 func (s *r2State) note(rule, construct string, pos token.Pos, bad bool, okDetail, badDetail string, p *core.Path) {
